@@ -18,6 +18,8 @@ type sndSnap struct {
 	nxt   uint32
 	t3    uint64
 	infl  []*chunkPayloadData
+	rtx   []bool
+	nsent []uint32
 	sids  []uint16
 	lens  []int
 	state uint32
@@ -43,6 +45,8 @@ func sndSnapshot(a *Association) sndSnap {
 		c := a.inflightQueue.chunks.At(i)
 		fmt.Fprintf(&sb, " %d %d %d %d %d %d", c.streamIdentifier, len(c.userData), b2i(c.acked), b2i(c.abandoned()), c.missIndicator, b2i(c.retransmit))
 		snap.infl = append(snap.infl, c)
+		snap.rtx = append(snap.rtx, c.retransmit)
+		snap.nsent = append(snap.nsent, c.nSent)
 		snap.sids = append(snap.sids, c.streamIdentifier)
 		snap.lens = append(snap.lens, len(c.userData))
 	}
@@ -108,10 +112,29 @@ func (r *sndRecorder) after(s *sim, ev *simEvent) {
 			fmt.Fprintf(&sb, " %d %d", post.sids[i], post.lens[i])
 		}
 		fmt.Fprintf(&sb, " %d %d", pre.nxt, b2i(pre.tlr || post.tlr))
+		// oracle: chunks that RACK declared lost during this event = chunks that were original transmissions
+		// without a retransmit mark before the event, are still in flight and unacknowledged after it, have a
+		// miss count below 3 (so it was not the fast-retransmit rule) and were marked for retransmission or
+		// already retransmitted by the gather that follows the event (a T3 expiry marks everything: it is its
+		// own record kind; the PTO probe is timer-driven and cannot occur inside a packet delivery)
+		rack := 0
+		if !strings.HasPrefix(evline, "t3") {
+			was := map[*chunkPayloadData]bool{}
+			for i, c := range pre.infl {
+				was[c] = !pre.rtx[i] && pre.nsent[i] == 1
+			}
+			a.lock.RLock()
+			for _, c := range post.infl {
+				if w, ok := was[c]; ok && w && !c.acked && c.missIndicator < 3 && (c.retransmit || c.nSent > 1) {
+					rack++
+				}
+			}
+			a.lock.RUnlock()
+		}
 		r.mu.Lock()
 		defer r.mu.Unlock()
 		*r.n++
-		fmt.Fprintf(r.w, "case s%d\npre %s\nev %s\n%s\npost %s\n", *r.n, pre.line, evline, sb.String(), post.line)
+		fmt.Fprintf(r.w, "case s%d\npre %s\nev %s\n%s\nrack %d\npost %s\n", *r.n, pre.line, evline, sb.String(), rack, post.line)
 	}
 	switch ev.kind {
 	case "deliver":
